@@ -49,6 +49,14 @@ theorem cands_eq_reach (ps : List String) (d : Val) (cs : List (Option Val))
     (h : cands ps d = .ok cs) : cs = reach ps d :=
   C01Lemmas.cands_eq_reach ps d cs h
 
+theorem candsKey_eq_reach (key : String) (d : Val) (cs : List (Option Val))
+    (h : candsKey key d = .ok cs) : cs = reach (splitDots key) d :=
+  C01Lemmas.cands_eq_reach (splitDots key) d cs h
+
+theorem candsKey_empty (fs : Fields) : candsKey "" (.doc fs) = .ok [dget "" fs] := by
+  have h : splitDots "" = [""] := by decide
+  simp only [candsKey, h, cands]
+
 theorem matches_eq_spec (f d : Val) (h : inD f d = true) :
     filterApplies f d = specMatches f d :=
   C01Lemmas.matches_eq_spec f d h
